@@ -62,28 +62,45 @@ func keysOf(m map[string]bool) []string {
 
 // runScenario checks detection and repair for one removal set.
 func runScenario(t fataler, full *util.MemoryNodeDB, root []byte, model map[string][]byte, removed map[string]bool, version int64, donorMode string, desc func() string) {
-	runScenarioW(t, full, root, model, removed, version, donorMode, false, desc)
+	runScenarioW(t, full, root, model, removed, version, donorMode, "cold", desc)
 }
 
 // warm: the nodes vanish from the store of a long-lived trie that has read all of its content before (its node cache
 // still holds them). Detection then goes through CloneMPT of that trie (a clone answers from the store), the repair is
 // done by the long-lived trie itself.
-func runScenarioW(t fataler, full *util.MemoryNodeDB, root []byte, model map[string][]byte, removed map[string]bool, version int64, donorMode string, warm bool, desc func() string) {
-	damaged := copyDB(full, removed)
+func runScenarioW(t fataler, full *util.MemoryNodeDB, root []byte, model map[string][]byte, removed map[string]bool, version int64, donorMode string, mode string, desc func() string) {
+	warm, layered := mode == "warm", mode == "layered"
+	var damaged util.NodeDB = copyDB(full, removed)
 	var long *util.MerklePatriciaTrie
 	open := func() *util.MerklePatriciaTrie { return mptkit.NewTrie(damaged, version, root) }
 	if warm {
-		damaged = copyDB(full, nil)
+		mem := copyDB(full, nil)
+		damaged = mem
 		long = mptkit.NewTrie(damaged, version, root)
 		if c, err := mptkit.Content(long); err != nil || !mptkit.EqualContent(c, model) {
 			t.Fatalf("%s: HARNESS: long-lived trie reads %s (%v) before the damage", desc(), mptkit.Show(c), err)
 		}
 		for k := range removed {
-			if err := damaged.DeleteNode(util.Key(k)); err != nil {
+			if err := mem.DeleteNode(util.Key(k)); err != nil {
 				t.Fatalf("%s: HARNESS: DeleteNode: %v", desc(), err)
 			}
 		}
 		open = func() *util.MerklePatriciaTrie { return util.CloneMPT(long) }
+	}
+	if layered {
+		// the trie's store is a level over the complete lower store; the nodes are removed through the level (which
+		// remembers what it deleted) and from the lower store
+		lower := copyDB(full, nil)
+		level := util.NewLevelNodeDB(util.NewMemoryNodeDB(), lower, false)
+		for k := range removed {
+			if err := level.DeleteNode(util.Key(k)); err != nil {
+				t.Fatalf("%s: HARNESS: level.DeleteNode: %v", desc(), err)
+			}
+			if err := lower.DeleteNode(util.Key(k)); err != nil {
+				t.Fatalf("%s: HARNESS: lower.DeleteNode: %v", desc(), err)
+			}
+		}
+		damaged = level
 	}
 	w := refmpt.WalkFrom(root, mptkit.GetterOf(damaged), false)
 	M := w.Missing
@@ -135,12 +152,27 @@ func runScenarioW(t fataler, full *util.MemoryNodeDB, root []byte, model map[str
 	}
 	it := open()
 	yielded := map[string][]byte{}
+	absentSeen := map[string]bool{}
 	ierr := it.Iterate(context.Background(), func(ctx context.Context, path util.Path, key util.Key, node util.Node) error {
+		if node == nil {
+			absentSeen[string(key)] = true // the iteration reports an absent node by handing over its key without a node
+			return nil
+		}
 		if vn, ok := node.(*util.ValueNode); ok {
 			yielded[string(append([]byte(nil), path...))] = vn.GetValueBytes()
 		}
 		return nil
 	}, util.NodeTypeValueNode)
+	if fmt.Sprint(keysOf(absentSeen)) != fmt.Sprint(keysOf(M)) {
+		t.Fatalf("%s: Iterate reported the absent nodes %v, walker says %v", desc(), keysOf(absentSeen), keysOf(M))
+	}
+	recorded := map[string]bool{}
+	for _, k := range it.GetMissingNodeKeys() {
+		recorded[string(k)] = true
+	}
+	if fmt.Sprint(keysOf(recorded)) != fmt.Sprint(keysOf(M)) {
+		t.Fatalf("%s: GetMissingNodeKeys after a full iteration = %v, walker says %v", desc(), keysOf(recorded), keysOf(M))
+	}
 	if (ierr != nil) != (len(M) > 0) {
 		t.Fatalf("%s: Iterate error = %v with %d missing", desc(), ierr, len(M))
 	}
@@ -320,16 +352,23 @@ func TestMissingNodesAndRepair(t *testing.T) {
 			desc := func() string {
 				return fmt.Sprintf("ops %v v0=%d version=%d removed=%v (%s) donor=%s", ops, v0, version, keysOf(removed), kinds[i], donorMode)
 			}
-			warm := i%3 == 2
+			mode := []string{"cold", "cold", "warm", "layered", "cold", "warm"}[i%6]
+			warm := mode == "warm"
 			desc0 := desc
 			if warm {
 				desc = func() string { return desc0() + " [nodes vanish under a long-lived trie with a warm node cache]" }
 			}
-			runScenarioW(rt, full, root, model, removed, version, donorMode, warm, desc)
+			if mode == "layered" {
+				desc = func() string { return desc0() + " [the store is a level over the lower store; nodes deleted through the level and below]" }
+			}
+			runScenarioW(rt, full, root, model, removed, version, donorMode, mode, desc)
 			nt := (interior && version != v0) || tops >= 2
 			cls := []string{"removal:" + kinds[i], "donor:" + donorMode}
 			if warm {
 				cls = append(cls, "warm-long-lived-trie")
+			}
+			if mode == "layered" {
+				cls = append(cls, "layered-store")
 			}
 			if version != v0 {
 				cls = append(cls, "version-differs")
